@@ -58,8 +58,10 @@ for _p in ("C01", "C02"):
     PROPS[_p]["assumptions"] = list(PROPS[_p]["assumptions"]) + [A_ARK3]
 PROPS["C11"] = dict(units=["fieldx_fq", "fieldx_fr", "fieldx_fp", "wrap64_fq", "wrap64_fr", "wrap64_fp", "ops_fq", "ops_fr", "ops_fp"],
     assumptions=[A_ARK1, A_ARK3, A_STD, A_WF],
-    explanation="byte/limb/bigint conversions refine the integer value: to_bytes(_le) is the little-endian form of val, from_bytes_checked accepts exactly the integers below p, from_bigint is Some iff below p, from_le_limbs/from_raw_bytes reduce mod p, From<u8..u128,bool>",
-    not_decided=["from_le_bytes_mod_order / from_be_bytes_mod_order (iterator chain chunks/map/rev/fold)", "FromStr / Display", "serialize_with_flags / deserialize_with_flags generic over Read/Write/Flags"])
+    explanation="byte/limb/bigint conversions refine the integer value: to_bytes(_le) is the little-endian form of val, from_bytes_checked accepts exactly the integers below p, from_bigint is Some iff below p, from_le_limbs/from_raw_bytes reduce mod p, From<u8..u128,bool>; from_le_bytes_mod_order / from_be_bytes_mod_order reduce byte strings of ANY length (Horner loop invariant over N_8-byte chunks); Ord::cmp / PartialOrd::partial_cmp are integer comparison of the values (lexicographic comparison of the reversed limb arrays, lemma_lex_is_int proved); Hash writes exactly the canonical little-endian bytes, a function of the value",
+    not_decided=["FromStr / Display (char iteration, BigInt::to_string): bounded probe field.* (decimal round trip)",
+                 "serialize_with_flags / deserialize_with_flags generic over Read / Write / Flags: bounded probe field.* (EmptyFlags, TEFlags, SWFlags, an 8-bit and a 9-bit custom flag type; canonical and non-canonical inputs)",
+                 "Field::sqrt / legendre (arkworks generic routines, A-ARK-1): bounded"])
 
 PROPS["C17"] = dict(units=["consts"], assumptions=[M_PRIME + " (the certified factors of p-1 are prime)", "the reference moduli are read from the cargo registry source of ark-bls12-377 / ark-ed-on-bls12-377 0.4.0"],
     explanation="one lemma per published constant, generated from the literals in /repo each run and evaluated exactly by Verus by(compute_only): half modulus, bit size, two-adicity, trace, half trace, generator (order test over the certified prime factors of p-1), root of unity (= g^t, exact order 2^s), QNR^t, 2^(8N) mod p, u32/u64 spellings, curve a/d/zeta/Montgomery A,B, generator (on curve, T=XY, [r]G = identity element, = decode(8)), sqrt-table constants, min_curve copies",
